@@ -152,7 +152,7 @@ def build(tpl, v, names, child_override=None):
     return tpl.inst(v, kids_t), sx(v, kids_s)
 
 
-def run(run):
+def run(run, syntax_only=False):
     mir = e2.load_mir(run)
     rp = common.Replay()
     run.assume("Python 3's own parser (ast.parse of the tooling interpreter) is the oracle for grouping",
@@ -251,6 +251,8 @@ def run(run):
                     continue          # not a Python expression at all: outside the domain
                 try:
                     need = norm_dump(plain) != want
+                    if syntax_only:
+                        need = False          # C02: only texts Python refuses to parse count
                 except SyntaxError:
                     need = True
                 needs[(p, f, c)] = need
@@ -272,8 +274,10 @@ def run(run):
     ob_t.discharged(f"{len(tpl.t)} arms, {n_valid} (parent, slot, child) printings identical to the real Display", 0, 0)
 
     # ---- the query
-    ob = run.ob("operands-delimited", "E3+E2+z3", "for every (parent, slot, child) of the operator set: if Python's parser "
-                "groups the undelimited text differently, the slot is delimited (needs_parens says so on that side)",
+    obid = "operands-delimited-syntax" if syntax_only else "operands-delimited"
+    ob = run.ob(obid, "E3+E2+z3", "for every (parent, slot, child) of the operator set: if Python's parser "
+                + ("refuses the undelimited text" if syntax_only else "groups the undelimited text differently") +
+                ", the slot is delimited (needs_parens says so on that side)",
                 ["to_py", "needs_parens", "precedence"])
     P, S, C = z3.Int("p"), z3.Int("s"), z3.Int("c")
     slot_ids = {}
@@ -329,7 +333,7 @@ def run(run):
             want_t, _ = build(tpl, p, names, {f: ("(" + ct2 + ")", cs2)})
             stt, real = rp.req("core", common.hexs(ps))
             try:
-                same = stt == "OK" and norm_dump(real) == norm_dump(want_t)
+                same = stt == "OK" and (norm_dump(real) == norm_dump(want_t) or syntax_only)
             except SyntaxError:
                 same = False
             if same:
@@ -345,11 +349,12 @@ def run(run):
         else:
             first = True
             for role, items in sorted(roles.items()):
-                o = ob if first else run.ob("operands-delimited", "E3+E2+z3", ob.desc, ob.functions)
+                o = ob if first else run.ob(obid, "E3+E2+z3", ob.desc, ob.functions)
                 first = False
                 o.reach = ob.reach
                 o.violated(role, {"triples": [i["tree"] for i in items][:6]}, items[0],
-                           f"{items[0]['tree']} prints as {items[0]['printed']!r} which Python groups differently ({len(items)} triples)")
+                           f"{items[0]['tree']} prints as {items[0]['printed']!r} which Python " +
+                           ("does not parse" if syntax_only else "groups differently") + f" ({len(items)} triples)")
     # end-to-end translator validation from Mamba source (cross-level groupings that must survive)
     if run.clean():
         bad = []
